@@ -3,6 +3,7 @@ package main
 // C17 — the unacknowledged-stanza queue is a FIFO with increasing sequence numbers.
 
 import (
+	"sort"
 	"fmt"
 	"go/token"
 	"strings"
@@ -195,6 +196,33 @@ func runC17(w *World, r *Report, tier string) {
 			continue
 		}
 		k := ownerOf(a.Fn)
+		if !allowed[k] {
+			// a helper that runs only for the allowed writers writes for them
+			forWhom := map[string]bool{}
+			var onlyFor func(f *ssa.Function, depth int) bool
+			onlyFor = func(f *ssa.Function, depth int) bool {
+				if allowed[ownerOf(f)] {
+					forWhom[ownerOf(f)] = true
+					return true
+				}
+				sites := w.callSitesOf(w.ownerFn(f))
+				if depth > 2 || len(sites) == 0 || !isHelper(w.ownerFn(f)) {
+					return false
+				}
+				for _, c := range sites {
+					if !onlyFor(c.Parent(), depth+1) {
+						return false
+					}
+				}
+				return true
+			}
+			if onlyFor(a.Fn, 0) {
+				for _, o := range sortedKeysB(forWhom) {
+					r.Ok("R2", o+"→"+k+"#store:Uslice", "helper called only by the allowed writers")
+				}
+				continue
+			}
+		}
 		r.Check(allowed[k], "R2", k+"#store:Uslice", w.ipos(a.Instr), "the queue's slice is written outside the constructor, Push, Pop and PopN", "allowed writer")
 	}
 	r.Floor("R2", 4)
@@ -297,7 +325,21 @@ func runC17(w *World, r *Report, tier string) {
 			got := w.nf(st.Val, 0)
 			want := fmt.Sprintf("slice(%s,1,_,_)", U(fn))
 			if got != want {
-				ok, detail = false, "Pop stores "+got+", expected "+want
+				// (a store in a helper shared with PopN reads the helper's parameter: judged on each path of Pop)
+				nOn, okOn := 0, true
+				walkPaths(entryLoc(fn), nil, nil, 5000, func(path []ssa.Instruction, end pathEnd) {
+					if countOn(path, func(in ssa.Instruction) bool { return in == ssa.Instruction(st) }) == 0 {
+						return
+					}
+					nOn++
+					if g := w.nfOn(st.Val, path); g != want {
+						okOn = false
+						got = g
+					}
+				})
+				if nOn == 0 || !okOn {
+					ok, detail = false, "Pop stores "+got+", expected "+want
+				}
 			}
 			cut := nonEmptyEdges(fn)
 			if (len(cut) == 0 || reachable(entryLoc(fn), func(in ssa.Instruction) bool { return in == ssa.Instruction(st) }, nil, cut)) && !nonEmptyOnPathsTo(fn, st) {
@@ -610,4 +652,13 @@ func runC17(w *World, r *Report, tier string) {
 		})
 		r.Check(ok && n > 0, "R5", "stanza.(*UnAckQueue).Empty", w.pos(fn.Pos()), "Empty is not len(Uslice) == 0", "len(Uslice) == 0")
 	}
+}
+
+func sortedKeysB(m map[string]bool) []string {
+	var out []string
+	for k := range m {
+		out = append(out, k)
+	}
+	sort.Strings(out)
+	return out
 }
